@@ -11,7 +11,8 @@ import xml.etree.ElementTree as ET
 from typing import Any, Dict, Iterable, List, Optional
 
 from harness.core import Case, Check, Finding, VERIF, short
-from harness.props._doc import (DocCheck, Gen, page_class, random_mutation, r_doc, region_state, fix_regions)
+from harness.props._doc import (DocCheck, Gen, page_class, random_mutation, r_doc, region_state, fix_regions,
+                                mark_nonconformant)
 
 CORPUS = os.path.join(VERIF, 'harness', 'corpus', 'C01')
 
@@ -124,7 +125,10 @@ class C01(DocCheck):
         'proved counter-example); a region without Coords gets hull(children) with hull a parameter (C09 contract); '
         'sampled, not proved: expat tokenisation / entity decoding, dateutil instants of Created/LastChange, float() of '
         'confidences and orientations (opaque literals), custom attributes (C11), the namespace URI (never read by the parser); '
-        'documents with tables: C08_scan_lossless')
+        'documents with tables: C08_scan_lossless; correspondence compared at the level of the statement: two rejections agree '
+        'whatever the exception classes (only raising-or-not is stated), scan.metadata must hold every key of the model with the '
+        'same value but may hold more, a falsy scan.reading_order is one value (None = {}), mutated documents that are no longer '
+        'conformant (mandatory attribute / child missing, untyped number, repeated id) are outside the quantifier: recorded only')
     assumptions = [
         'xmltodict.parse with default options behaves as toDict (validated on every generated document, canonical and shuffled)',
         'the hull routine is a function of its input point list (C09); its answers are supplied to the model as a table',
@@ -198,7 +202,9 @@ class C01(DocCheck):
             m = random_mutation(r_doc(src), rng)
             if m is not None:
                 out.append(Case('mut', {'src': src, 'fname': 'page_%d.xml' % next(seq), 'mut': m}, ['malformed', 'mut:' + m['op']]))
-        return out
+        # "Parsing any conformant PageXML document …": a mutated tree that is no longer conformant is outside the
+        # quantifier (mirrored, differences recorded only); mutations that leave it conformant stay compared exactly
+        return mark_nonconformant(out)
 
     def finding_tags(self, src):
         return ['class:' + c for c in page_class(src)]
